@@ -5,10 +5,11 @@
 import EG.Lemmas.AdaptersCropIndex
 import EG.Model.Adapters
 namespace EG
+open Tgt
 
 /-! ### Point-wise meaning of a call -/
 
-/-- What a call writes (documented meaning) on a target that reports box `T`, as a partial map:
+/-- What a call writes (documented meaning) on a target that reports box `T`, as a point-wise (optional) map:
 the colour last written to `p` by this call, `none` if the call does not touch `p`. Not yet
 clipped to `T` (only `clear` depends on `T`). -/
 def Call.sem (T : Rect) (c : Call) (p : Pt) : Option Color := lastWrite (c.lowerNative T) p
@@ -50,7 +51,7 @@ structure Xf where
   d : Pt
   f : Color → Color
 
-/-- Action on partial pixel maps: parent point `q` shows `f` of what the child map has at `q - d`,
+/-- Action on point-wise (optional) pixel maps: parent point `q` shows `f` of what the child map has at `q - d`,
 if `q` is in the region; nothing otherwise. -/
 def Xf.act (x : Xf) (m : Pt → Option Color) (q : Pt) : Option Color :=
   if x.G q = true then (m (q - x.d)).map x.f else none
@@ -319,4 +320,45 @@ theorem lower_sem (a : Adapter) (B : Rect) (c : Call) (h1 : c.Ok (a.bbox B)) (h2
     rw [converted_sem _ _ _ h1]; simp
 
 end Adapter
+end EG
+
+namespace EG
+open Tgt
+
+/-! ### The range guard survives intersection (so clipping never needs a guard of its own) -/
+
+theorem Rect.ok_of_inside (i a : Rect) (ha : a.Ok) (hw : 0 < i.size.w) (hh : 0 < i.size.h)
+    (hx0 : a.tl.x ≤ i.tl.x) (hx1 : i.tl.x + i.size.w ≤ a.tl.x + a.size.w)
+    (hy0 : a.tl.y ≤ i.tl.y) (hy1 : i.tl.y + i.size.h ≤ a.tl.y + a.size.h) : i.Ok := by
+  right
+  rcases ha with hz | hr
+  · rw [Rect.isZeroSized_iff] at hz; omega
+  · unfold Rect.InRange inI32 at hr ⊢; omega
+
+theorem Rect.ok_intersection_left (a b : Rect) (ha : a.Ok) : (a.intersection b).Ok := by
+  by_cases hz : (a.intersection b).isZeroSized = true
+  · exact Or.inl hz
+  · rw [Rect.isZeroSized_iff] at hz
+    have hf := Rect.intersection_fields a b (by omega) (by omega)
+    exact Rect.ok_of_inside _ a ha (by omega) (by omega) (by omega) (by omega) (by omega) (by omega)
+
+theorem Rect.ok_intersection_right (a b : Rect) (hb : b.Ok) : (a.intersection b).Ok := by
+  by_cases hz : (a.intersection b).isZeroSized = true
+  · exact Or.inl hz
+  · rw [Rect.isZeroSized_iff] at hz
+    have hf := Rect.intersection_fields a b (by omega) (by omega)
+    exact Rect.ok_of_inside _ b hb (by omega) (by omega) (by omega) (by omega) (by omega) (by omega)
+
+/-- What a clipped target hands to its parent is in range whenever the call was. -/
+theorem Adapter.clipped_lower_ok (R B : Rect) (c : Call) (h1 : c.Ok R) : (Adapter.lowerClipped R c).Ok B := by
+  cases c with
+  | drawIter px => trivial
+  | fillContiguous a cs =>
+    simp only [Adapter.lowerClipped]
+    by_cases he : R.intersection a = a
+    · simp only [he, ↓reduceIte]; exact h1
+    · simp only [he, ↓reduceIte]; exact Rect.ok_intersection_right R a h1
+  | fillSolid a col => exact Rect.ok_intersection_left a R h1
+  | clear col => exact Rect.ok_intersection_left R R h1
+
 end EG
